@@ -91,8 +91,28 @@ def regex_vs_objective(rng):
     return dict(sequence=seq, constraints=cons, objectives=objs, settings=problems.rand_settings(rng), np_seed=rng.randint(0, 10 ** 6))
 
 
+def terminal_vs_global_gc(rng, as_objective=False):
+    """both terminal windows hold a moderate GC content; a global (non-windowed) GC target pulls the whole sequence
+    towards an extreme one: its breach location is the whole sequence, so one local problem overlaps BOTH ends"""
+    from gen import hard
+    n = rng.randint(24, 60)
+    w = rng.randint(4, 8)
+    half = lambda k: "".join(rng.sample("GC" * k + "AT" * k, 2 * k))
+    seq = half(w)[:w] + hard.rand_seq(rng, n - 2 * w) + half(w)[:w]
+    term = dict(kind="terminal", window=w, mini=0.25, maxi=0.75)
+    gc = dict(kind="gc_obj", target=rng.choice([0.05, 0.95, 0.9, 0.1]), window=None, boost=rng.choice([1, 1, 2]), location=None)
+    d = dict(sequence=seq, constraints=[] if as_objective else [term], objectives=[term, gc] if as_objective else [gc],
+             settings=problems.rand_settings(rng), np_seed=rng.randint(0, 10 ** 6))
+    if rng.random() < 0.5:
+        d["constraints"].append(dict(kind="keep_idx", indices=sorted(rng.sample(range(w, n - w), (n - 2 * w) // 2))))
+    return d
+
+
 def gen_cases(rng, n):
     for i in range(n):
+        if i % 10 == 1:
+            yield dict(desc=terminal_vs_global_gc(rng), op="optimize", pre_ops=("resolve",))
+            continue
         if i % 10 == 3:
             yield dict(desc=regex_vs_objective(rng), op="optimize", pre_ops=("resolve",))
             continue
